@@ -436,7 +436,7 @@ def run(chk):
     n = run_shapes(chk, pm, sch)
     chk.extra['shapes'] = n
     chk.guard('C07.S', check_other_statements, chk, pm, sch)
-    chk.guard('C07.S', check_expression_displays, chk, pm, sch)
+    chk.readback(concrete_ok)('C07.S', check_expression_displays, chk, pm, sch)
     if concrete_ok:
         # label numbering decided on the concrete programs (no label defined twice, every jump target defined, in ~120 programs with up to 40 constructs each): the read-back of
         # the counter's spelling is advisory
